@@ -4,7 +4,7 @@ use crate::rng::Rng;
 
 pub fn spec() -> ExampleSpec {
     ExampleSpec { name: "misp", generate, cli, sched_threads: |t| t,
-        premises: "simple undirected graph, no self loops; node weights >= 1 (the model's rough upper bound and merge assume non-negative weights); the `p edge` line comes first" }
+        premises: "simple undirected graph, no self loops; node weights >= 0, weight 0 in one instance out of five (the model's rough upper bound and merge assume non-negative weights); the `p edge` line comes first" }
 }
 fn cli(path: &str, width: Option<usize>, threads: usize) -> Vec<String> {
     let mut v = vec![path.to_string(), "--threads".into(), threads.to_string()];
@@ -14,7 +14,8 @@ fn cli(path: &str, width: Option<usize>, threads: usize) -> Vec<String> {
 fn generate(rng: &mut Rng) -> ExInstance {
     let n = 1 + rng.below(9);
     let density = 1 + rng.below(6);
-    let weights: Vec<i64> = (0..n).map(|_| 1 + rng.below(9) as i64).collect();
+    let zeros = rng.chance(1, 5);
+    let weights: Vec<i64> = (0..n).map(|_| if zeros && rng.chance(1, 3) { 0 } else { 1 + rng.below(9) as i64 }).collect();
     let unit = rng.chance(1, 4);
     let mut edges = vec![];
     for a in 0..n { for b in (a + 1)..n { if rng.below(8) < density { edges.push((a, b)); } } }
